@@ -88,6 +88,7 @@ var lists = []listSpec{
 
 type rec struct {
 	outerSeen   int
+	early       bool
 	wireCL      int64
 	wireRead    int64
 	wireCE      string
@@ -135,6 +136,7 @@ type reqDesc struct {
 	Poison   string `json:"poison,omitempty"` // read-error | pipe-closed | close-error (body fails after FailAt bytes)
 	FailAt   int    `json:"fail_after_bytes,omitempty"`
 	Nested   string `json:"nested_request_id,omitempty"`
+	Early    bool   `json:"answered_401_by_the_front_end_before_the_body_is_read,omitempty"`
 
 	nest   *reqDesc        // request performed from inside this request's body reader
 	arrive *sync.WaitGroup // barrier: all exchanges of a wave call the client at the same moment
@@ -227,6 +229,16 @@ func (g *group) outer(next http.Handler) http.Handler {
 		rc.wireCL = r.ContentLength
 		rc.wireCE = r.Header.Get("Content-Encoding")
 		g.mu.Unlock()
+		if r.Header.Get("X-Early") != "" {
+			// an authenticating front end refuses the request on its headers and never reads the body; the client is
+			// still sending it while it receives the answer
+			g.mu.Lock()
+			rc.early = true
+			g.mu.Unlock()
+			w.Header().Set("Connection", "close")
+			http.Error(w, "refused before the body was read", http.StatusUnauthorized)
+			return
+		}
 		if kill != "" && arrival == 1 && served >= 1 {
 			// Replay dimension. This connection already served a request, so for the client it is a reused
 			// keep-alive connection: dropping it without an answer makes http.Transport replay an idempotent
@@ -624,6 +636,9 @@ func (g *group) exec(d *reqDesc, body []byte) (o outcome) {
 	req.Header.Set("Content-Type", "application/octet-stream")
 	req.Header.Set("X-Case", d.ID)
 	req.Header.Set("X-Buf", strconv.Itoa(d.Buf))
+	if d.Early {
+		req.Header.Set("X-Early", "1")
+	}
 	if setCE != "" {
 		req.Header["Content-Encoding"] = []string{setCE}
 	}
@@ -786,6 +801,15 @@ func (g *group) evaluate(d *reqDesc, body []byte, o outcome, retried bool) (agai
 	}
 	vio := func(sub, rel, what string) {
 		c.Violation(sub, what, wit, "algo", algoClass(algo), "mode", d.Mode, "rel", rel, "list", d.List)
+	}
+	if d.Early {
+		// nothing is demanded of a request the front end refused (its transport may report 401 or a write error);
+		// it exists to overlap with the others while its compressed body is still being sent
+		c.Observe("requests_refused_early_while_others_overlap", 1)
+		if rc.innerCalls > 0 {
+			vio("early", "-", "a request the front end refused before the chain reached the handler nevertheless")
+		}
+		return false
 	}
 	if o.cerr != nil && strings.HasPrefix(o.cerr.Error(), "harness:") {
 		c.Inconclusive("harness-setup")
@@ -1423,6 +1447,10 @@ func (g *group) poisonThenOverlap(rng *rand.Rand, t string) {
 	wave := make([]*reqDesc, n)
 	for i := range wave {
 		wave[i] = mk("overlap-after-poison")
+		if ceOfType(t) != "" && i%4 == 1 {
+			// refused by the front end on its headers, while its (large, incompressible) compressed body is on its way
+			wave[i].Early, wave[i].Kind, wave[i].Size, wave[i].SizeCls = true, "rand", 1<<20, ">block"
+		}
 	}
 	g.runWave(wave, false)
 	g.c.Distinct("poison_overlap_classes", t, level < -999, n)
